@@ -75,7 +75,7 @@ def protocol(f0: bool, f1: bool, f2: bool, f3: bool, b0: bool, b1: bool, b2: boo
 
 BOUNDS = {
     "quick": [
-        "13 request templates (nested defers, stream inside defer, overlapping fragments at different defer depths, defer inside streamed items, initialCount 0/1/2, the same fragment deferred and plain, equal labels on different paths, non-null errors in deferred fragments and streams, a failing execution group shared by two fragments, stream + defer over one list)",
+        "15 request templates (below an outer defer: per-list-item defers with nested defers / an awaitable object field selected plainly and inside each item's deferred fragment; nested defers, stream inside defer, overlapping fragments at different defer depths, defer inside streamed items, initialCount 0/1/2, the same fragment deferred and plain, equal labels on different paths, non-null errors in deferred fragments and streams, a failing execution group shared by two fragments, stream + defer over one list)",
         "symbolic: the `if` of every directive (up to 4), sync/awaitable for 8 resolver positions, consumer pulls eagerly or after everything settled, 6 scheduler decisions (completion order); cells: template x list kind (plain / async generator / list of awaitables) x enable_early_execution x error injection",
     ],
     "thorough": ["same cells, larger budget"],
@@ -122,3 +122,6 @@ def corpus():
             yield fn, c, dict(base, f0=False, f2=False, b0=True, b2=True, b5=True, c0=2, c1=0, c2=1)
             yield fn, c, dict(base, b6=True, b7=True, c0=1)
             yield fn, c, dict(base, b6=True, c0=0, lazy=True)
+            if c["doc"] in (13, 14):
+                yield fn, c, dict(base, b2=True, b4=True, c1=1)
+                yield fn, c, dict(base, b0=True, b4=True, c0=1, c2=1)
